@@ -464,19 +464,35 @@ impl<'p> Solver<'p> {
                 Ok(true)
             }
             "print_list" => {
-                if args.len() != 1 { return Err("print_list arity".into()); }
-                let w = self.s.walk(&args[0]);
-                let es = match &w {
-                    RT::Nil | RT::Cons(..) => match self.list_elems(&w)? { Some(es) => es, None => return Err("print_list: odd".into()) },
-                    _ => return Err("print_list: not a list".into()),
-                };
-                let mut parts = vec![];
-                for e in es {
-                    let we = self.s.walk(&e);
-                    if !syntactically_ground(&we) { return Err("print_list: element not bound to a ground value".into()); }
-                    parts.push(self.s.resolve(&we).value_text());
+                // Every argument is written on a line of its own: a list as its elements
+                // separated by ", ", anything else as its value. A list which is not the
+                // first argument is preceded by a line holding a comma (documented example:
+                // print_list([一, 二, 三], Not a list.) writes "一, 二, 三\nNot a list.\n").
+                if args.is_empty() { return Err("print_list arity".into()); }
+                let mut text = String::new();
+                for (i, a) in args.iter().enumerate() {
+                    let w = self.s.walk(a);
+                    match &w {
+                        RT::Nil | RT::Cons(..) => {
+                            let es = match self.list_elems(&w)? { Some(es) => es, None => return Err("print_list: odd".into()) };
+                            let mut parts = vec![];
+                            for e in es {
+                                let we = self.s.walk(&e);
+                                if !syntactically_ground(&we) { return Err("print_list: element not bound to a ground value".into()); }
+                                parts.push(self.s.resolve(&we).value_text());
+                            }
+                            if i > 0 { text.push_str(",\n"); }
+                            text.push_str(&parts.join(", "));
+                            text.push('\n');
+                        }
+                        other => {
+                            if !syntactically_ground(other) { return Err("print_list: argument not bound to a ground value".into()); }
+                            text.push_str(&self.s.resolve(other).value_text());
+                            text.push('\n');
+                        }
+                    }
                 }
-                self.events.push(Event::Out(format!("{}\n", parts.join(", "))));
+                self.events.push(Event::Out(text));
                 self.stats.outs += 1;
                 Ok(true)
             }
